@@ -228,15 +228,14 @@ def h_call(g: int, n: int, a: int, b: int, c: int, perm: int) -> bool:
         outs.append((st("S0"), _CUR["emol"].edits if _CUR["emol"] else []))
     if PART.get("twin"):
         return outs[0][0] == "S0"
-    want = "FIXED" if name in ("enol", "hemiketal") else "S0"
+    # an enol / gem-diol is rewritten; whatever the group, the result is a SMILES (never an error text, never an
+    # exception), and the second call on the same instance behaves like the first
     for out, edits in outs:
-        if out != want:
+        if out not in ("S0", "FIXED"):
             return False
-        if want == "S0" and edits:
+        if name in ("enol", "hemiketal") and (out != "FIXED" or not edits):
             return False
-        if want == "FIXED" and not edits:
-            return False
-    return outs[0][1] == outs[1][1]
+    return outs[0] == outs[1]
 
 
 def plan(tier):
